@@ -48,7 +48,19 @@ def reader_triple(run, roles, emit=True):
     bo_r = V.resolve(bo, c) if bo is not None else None
     sg_r = V.resolve(sg, c) if sg is not None else None
     # the data list is filled by exactly one byte request per loop iteration, loop count = _int_size
+    # int.from_bytes(<data>): <data> is the accumulator, possibly through value-preserving conversions and single-definition names
     data = c.args[0] if c.args else None
+    for _ in range(6):
+        if isinstance(data, ast.Call) and call_name(data) in ("bytes", "bytearray", "list", "tuple") and len(data.args) == 1 and not data.keywords:
+            data = data.args[0]
+            continue
+        if isinstance(data, ast.Name):
+            defs = [a for a in walk_no_nested(fn) if isinstance(a, ast.Assign) and len(a.targets) == 1 and norm(a.targets[0]) == data.id]
+            if len(defs) == 1 and isinstance(defs[0].value, ast.Call) and call_name(defs[0].value) in ("bytes", "bytearray", "list", "tuple") \
+                    and len(defs[0].value.args) == 1:
+                data = defs[0].value.args[0]
+                continue
+        break
     loops = [n for n in walk_no_nested(fn) if isinstance(n, ast.For)]
     okloop, count_src = False, None
     for lp in loops:
@@ -64,7 +76,20 @@ def reader_triple(run, roles, emit=True):
         asg = y._parent
         appended = [a for a in ast.walk(lp) if isinstance(a, ast.Call) and isinstance(a.func, ast.Attribute)
                     and a.func.attr == "append" and data is not None and norm(a.func.value) == norm(data)]
-        okloop = isinstance(asg, ast.Assign) and len(appended) == 1 and norm(appended[0].args[0]) == norm(asg.targets[0])
+        # the requested byte is appended: `b = yield None; data.append(b)` or `data.append((yield None))`
+        direct = len(appended) == 1 and len(appended[0].args) == 1 and appended[0].args[0] is y and len(lp.body) == 1
+        named = isinstance(asg, ast.Assign) and len(appended) == 1 and norm(appended[0].args[0]) == norm(asg.targets[0]) and len(lp.body) == 2
+        # ... to an accumulator that starts empty and is written nowhere else
+        inits = [a for a in walk_no_nested(fn) if isinstance(a, ast.Assign) and data is not None and
+                 any(norm(t_) == norm(data) for t_ in a.targets)]
+        empty = len(inits) == 1 and order(inits[0]) < order(lp) and (
+            (isinstance(inits[0].value, (ast.List,)) and not inits[0].value.elts) or
+            (isinstance(inits[0].value, ast.Call) and call_name(inits[0].value) in ("list", "bytearray") and not inits[0].value.args
+             and not inits[0].value.keywords))
+        others = [a for a in walk_no_nested(fn) if isinstance(a, ast.Call) and isinstance(a.func, ast.Attribute) and data is not None
+                  and norm(a.func.value) == norm(data) and a not in appended and a.func.attr in
+                  ("append", "extend", "insert", "pop", "remove", "clear", "reverse", "sort", "__setitem__")]
+        okloop = (direct or named) and empty and not others
     return dict(V=V, call=c, byteorder=bo_r, signed=sg_r, count=count_src, loop_ok=okloop, tparam=t, mod=mod, fn=fn,
                 is_decoded=lambda e, at: V.resolve(e, at) is c)
 
